@@ -189,7 +189,20 @@ def run(repo: Repo, chk: Check, thorough: bool = False) -> None:
                    'instead of the line that contains it', repo.loc(f.mod, c))
     if n_pt < 1:
         raise AnalysisError('R16.4: the per-field ParsedTypeDocstring(...) construction in processtypes was not found')
-    chk.require('R16.4', 4)
+    chk.require('R16.4', 6)
+
+    # whoever replaces the text of a docstring from source also records where the new text is: problems found in it are reported relative to
+    # docstring_lineno
+    for w in writers(repo, 'docstring', [f'{M}.Documentable'], unknown_counts=False, skip_modules=('pydoctor.sphinx_ext', 'pydoctor.test')):
+        v = w.node.value if isinstance(w.node, (ast.Assign, ast.AnnAssign)) else None
+        if v is None or isinstance(v, ast.Constant) or (isinstance(v, ast.Attribute) and v.attr in ('__doc__', 'docstring')):
+            continue     # constants, live __doc__ of introspected objects (no source line), copies
+        recv = norm(w.receiver) if hasattr(w, 'receiver') else norm(w.node.targets[0].value) if isinstance(w.node, ast.Assign) else ''
+        ln = [n for n in w.func.walk() if isinstance(n, ast.Assign) and any(isinstance(t, ast.Attribute) and t.attr == 'docstring_lineno' and norm(t.value) == recv for t in n.targets)]
+        chk.ob('R16.4', f'{w.func.qn} :: the line of a docstring is recorded together with its text', bool(ln),
+               f'{norm(ln[0])[:60]}' if ln else
+               f'`{norm(w.node)[:50]}` replaces the text but leaves docstring_lineno as it was: problems in a docstring assigned through `x.__doc__ = ...` are '
+               'reported at the line of the old docstring (or of the def), outside the docstring at fault', w.loc)
 
     # ------------------------------------------------------------------ R16.5  (unit agreement, not arithmetic)
     # ParseError counts lines from 0 ("The linenum of the first line is 0", linenum() adds one); docutils counts from 1.  A line taken from a
